@@ -16,6 +16,7 @@ function of output `o` with symbol `g` is the term constructor `g(arg,…)`.
     begin                          make the for-node class and instance  → children | mk err <kind>
     set <k> nd | one <v> | many <v>…
     run <completed body indices>   → res / outputs / children / wiring (table form)   (runq: res / outputs)
+    rrun <completed…>              as run, but the node itself is shipped to a by-value executor and merged back
     reload                         pickle round trip at rest → rl / outputs / children
     snaprun <completed…>           as run; then the state becomes the copy restored from a pickle taken while the
                                    bodies of THIS run were out → snap ok / outputs / children   |  snap none
@@ -189,6 +190,13 @@ def step (d : DSt) (ws : List String) : DSt × List String :=
     if d.begun ∧ k ∈ d.cur.map (·.1) then ({ d with cur := setCur d.cur k (.many vs) }, []) else (d, ["bad-op"])
   | "run" :: ord => doRun d ord false
   | "runq" :: ord => doRun d ord true
+  | "rrun" :: ord =>     -- the loop node itself on a by-value executor
+    (match nats ord with
+     | none => (d, ["bad-op"])
+     | some order =>
+       if !d.begun then (d, ["bad-op"]) else
+       let (st, r) := runByValue d.spec d.st d.cur order
+       ({ d with st }, [showRes r, showOuts st.outs, showChildren st.children] ++ showWire d.spec st))
   | "snaprun" :: ord => doSnapRun d ord
   | ["reload"] =>
     if !d.begun then (d, ["bad-op"]) else
